@@ -194,8 +194,9 @@ class Field:
         if dof_n == 1:
             return array
         else:
-            newArray = FeArray.zeros(Ne, nPg, dim, dof_n, dtype=float)
-            newArray[..., :, dof] = array
+            # grad[i, j] = d u_i / d x_j, as Get_Gradient_e_pg returns it once the field is evaluated
+            newArray = FeArray.zeros(Ne, nPg, dof_n, dim, dtype=float)
+            newArray[..., dof, :] = array
             return newArray
 
     def Evaluate_e(
